@@ -16,6 +16,7 @@ from ..utils import EPSILON, MAX_FLOAT, scalar_triple_product
 
 
 EPSILON_SQR = EPSILON * EPSILON
+RELATIVE_PROGRESS_EPSILON = 1e-9
 ALL_TRUE = np.array([True, True, True, True], dtype=np.dtype("bool"))
 
 
@@ -279,9 +280,13 @@ def _distance_loop(
     search_direction *= -1.0
 
     # If the squared length of v is not changing enough, we've converged and
-    # there is no collision
+    # there is no collision. Jolt compares the relative progress with the
+    # machine epsilon of single precision. With the epsilon of double
+    # precision the loop would go on while |v|^2 only changes by rounding
+    # noise, until a support point that is (almost) in the simplex already
+    # makes the simplex degenerate and the closest point wrong.
     assert prev_v_len_sq >= v_len_sq
-    if prev_v_len_sq - v_len_sq <= EPSILON * prev_v_len_sq:
+    if prev_v_len_sq - v_len_sq <= RELATIVE_PROGRESS_EPSILON * prev_v_len_sq:
         # search_direction is a separating axis
         return GjkState.NoIntersection, n_points, prev_v_len_sq, v_len_sq
 
